@@ -636,14 +636,14 @@ class ODF2XHTML(handler.ContentHandler):
         """ Set the content language. Identifies the targeted audience
         """
         self.language = ''.join(self.data)
-        self.metatags.append('<meta http-equiv="content-language" content="%s"/>\n' % escape(self.language))
+        self.metatags.append('<meta http-equiv="content-language" content=%s/>\n' % quoteattr(self.language))
         self.data = []
 
     def e_dc_creator(self, tag, attrs):
         """ Set the content creator. Identifies the targeted audience
         """
         self.creator = ''.join(self.data)
-        self.metatags.append('<meta http-equiv="creator" content="%s"/>\n' % escape(self.creator))
+        self.metatags.append('<meta http-equiv="creator" content=%s/>\n' % quoteattr(self.creator))
         self.data = []
 
     def s_custom_shape(self, tag, attrs):
